@@ -570,54 +570,81 @@ class BinHandle:
         self.pos = new
         return new
 
-    # position helpers: positions may be SymInt only through a symbolic `limit`
+    # position helpers.  The file's size S is bf.limit when set (concrete or SymInt; bytes between
+    # the natural size and S are opaque), else the natural size.  Positions are concrete except
+    # right after seek(0, 2) on a symbolic size.
     def _cpos(self):
         p = self.pos
         if isinstance(p, core.SymInt):
-            p = int(p)          # realises (forks); bounded by the engine
+            p = core.cur().realise_int(p.t, limit=256)
             self.pos = p
         return p
 
+    def _size_ge(self, x):
+        """S >= x ?  (a solver decision when the size is symbolic)"""
+        S = self.bf.size()
+        r = S >= x
+        if isinstance(r, core.SymBool):
+            return core.cur().decide(r.t)
+        return bool(r)
+
     def _avail(self, pos):
-        """Concrete number of bytes available from pos to the (possibly symbolic) end."""
-        nat = self.bf.natural_size()
-        lim = self.bf.limit
-        if lim is None:
-            return max(0, nat - pos)
-        if isinstance(lim, core.SymInt):
-            lim = int(lim)      # realisation of a symbolic truncation length (bounded by harness)
-        return max(0, min(nat, lim) - pos)
+        """Concrete number of bytes from pos to the end (realises a symbolic size: bounded)."""
+        S = self.bf.size()
+        if isinstance(S, core.SymInt):
+            if not self._size_ge(pos + 1):
+                return 0
+            S = core.cur().realise_int(S.t, limit=256)
+        return max(0, S - pos)
 
     def readline(self, limit=-1):
         pos = self._cpos()
-        avail = self._avail(pos)
-        if avail <= 0:
+        if not self._size_ge(pos + 1):
             return b''
+        nat = self.bf.natural_size()
         i, off = self.bf.locate(pos)
-        if i is None:
+        if i is None or pos >= nat:
             # inside the opaque extension
-            self.pos = pos + avail
+            self.pos = pos + 1
             return GarbageBytes(b'\xff')
+        kind, payload = self.bf.segs[i]
+        if kind == WD:
+            # a line starting inside payload does not end in ASCII (A-payload); the position
+            # afterwards is approximated by the end of the payload segment
+            self.pos = pos + (len(payload) * 8 - off)
+            return GarbageBytes(b'\xff')
+        # collect bytes up to and including the next newline, across adjacent byte segments
         out = b''
-        while i is not None and i < len(self.bf.segs) and avail > 0:
-            kind, payload = self.bf.segs[i]
-            if kind == WD:
-                # running into payload: the line does not end in ASCII
-                n = min(avail, len(payload) * 8 - off)
-                self.pos = pos + len(out) + n
-                return GarbageBytes(b'\xff')
-            chunk = payload[off:off + avail]
+        j = i
+        o = off
+        ended = False
+        garbage_tail = False
+        while j < len(self.bf.segs):
+            k2, p2 = self.bf.segs[j]
+            if k2 == WD:
+                garbage_tail = True
+                break
+            chunk = p2[o:]
             nl = chunk.find(b'\n')
             if nl >= 0:
                 out += chunk[:nl + 1]
-                self.pos = pos + len(out)
-                return out if kind == HB or not out else out
+                ended = True
+                break
             out += chunk
-            avail -= len(chunk)
-            i += 1
-            off = 0
-        self.pos = pos + len(out)
-        return out
+            j += 1
+            o = 0
+        end = pos + len(out)
+        if self._size_ge(end):
+            self.pos = end
+            if garbage_tail and not ended:
+                self.pos = end + len(self.bf.segs[j][1]) * 8
+                return GarbageBytes(b'\xff')
+            return out
+        # the file ends inside this line: how many of its bytes exist is a (bounded) realisation
+        S = self.bf.size()
+        n = core.cur().realise_int((S - pos).t, limit=256) if isinstance(S, core.SymInt) else S - pos
+        self.pos = pos + n
+        return out[:n]
 
     def read(self, n=-1):
         pos = self._cpos()
@@ -641,7 +668,11 @@ class BinHandle:
             left -= take
             i += 1
             off = 0
-        self.pos = pos + (n - left)
+        if left > 0:
+            out += b'\xff' * left
+            garbage = True
+            left = 0
+        self.pos = pos + n
         return GarbageBytes(out) if garbage else out
 
     def __iter__(self):
@@ -657,31 +688,43 @@ class BinHandle:
         """Up to `count` 8-byte words from the current position (np.fromfile semantics: fewer
         at end of file).  Header/opaque bytes and misaligned payload read as Garbage words."""
         pos = self._cpos()
-        avail = self._avail(pos)
+        if count <= 0:
+            return []
+        if self._size_ge(pos + 8 * count):
+            nwords = count
+        else:
+            S = self.bf.size()
+            if isinstance(S, core.SymInt):
+                if not self._size_ge(pos + 8):
+                    nwords = 0
+                else:
+                    nwords = core.cur().realise_int(((S - pos) // 8).t, limit=64)
+            else:
+                nwords = max(0, (S - pos) // 8)
         out = []
         segs = self.bf.segs
         i, off = self.bf.locate(pos)
-        while len(out) < count and avail >= 8:
+        while len(out) < nwords:
             if i is None or i >= len(segs):
                 out.append(Garbage('bytes beyond the FABs'))
-                avail -= 8
                 pos += 8
                 continue
             kind, payload = segs[i]
             n = BinFile.seglen(segs[i])
             if kind == WD and off % 8 == 0:
-                k = min(count - len(out), (n - off) // 8, avail // 8)
+                k = min(nwords - len(out), (n - off) // 8)
                 if k <= 0:
-                    break
-                out.extend(payload[off // 8: off // 8 + k])
-                off += 8 * k
-                pos += 8 * k
-                avail -= 8 * k
+                    out.append(Garbage('misaligned'))
+                    off += 8
+                    pos += 8
+                else:
+                    out.extend(payload[off // 8: off // 8 + k])
+                    off += 8 * k
+                    pos += 8 * k
             else:
                 out.append(Garbage('header or misaligned bytes read as float64'))
                 off += 8
                 pos += 8
-                avail -= 8
             while i is not None and i < len(segs) and off >= BinFile.seglen(segs[i]):
                 off -= BinFile.seglen(segs[i])
                 i += 1
